@@ -58,6 +58,42 @@ R08.7 per-mock template-data options are read by the built-in templates from the
 	}
 }
 
+// configResolutionGuard: checks whose property depends on the *effective* value
+// of an option (template-data flags, force-file-write) re-establish that the
+// hierarchy resolves it as documented: key-wise template-data merge, field
+// inheritance, nearest recursive ancestor first.
+func configResolutionGuard(c *Ctx, rule string) {
+	c.Rule(rule, 8, "effective option values: the configuration hierarchy resolves most-specific-first (C08 rules R08.1/R08.2, recursion order R07.5)")
+	r := loadRepo(c, packages.LoadSyntax, "", "./config")
+	cp := r.Pkg("config")
+	sub := newCtx(c.Prop, c.Tier)
+	sub.known = nil
+	ruleMergeConfigs(sub, r, cp)
+	ruleMergeStringMaps(sub, r, cp)
+	if fd := FuncDecl(cp, "RootConfig.Initialize"); fd != nil {
+		checkRecursiveOrder(sub, r, cp, fd, "R07.5", "Initialize|recursive-order")
+	}
+	for _, id := range sub.ruleList {
+		for i := 0; i < sub.rules[id].Instances-countFails(sub, id); i++ {
+			c.OK(rule, "config-resolution|"+id, "config/config.go", "holds")
+		}
+	}
+	for _, k := range sub.failKeys {
+		o := sub.fails[k]
+		c.Fail(rule, "config-resolution|"+o.Key, o.Pos, "the effective value of an option this property depends on is not resolved most-specific-first: "+o.Detail)
+	}
+}
+
+func countFails(c *Ctx, rule string) int {
+	n := 0
+	for _, k := range c.failKeys {
+		if c.fails[k].Rule == rule {
+			n += c.fails[k].Count
+		}
+	}
+	return n
+}
+
 // fieldClass classifies a Config field by what reflection will see.
 func fieldClass(t types.Type) string {
 	switch x := t.Underlying().(type) {
